@@ -361,6 +361,7 @@ func C03(c *core.Ctx) {
 	c.RuleText = "instances: every Nat method call site (receiver provenance), the 7 primitive functions, every switch statement over integer thresholds in every generated file. Non-trivial = a table with ≥1 row or a receiver with ≥1 provenance leaf."
 	p := c.P
 	defer c03SizedAsWritten(c)
+	defer c03OneOctetThreshold(c)
 	defer c03ReaderBase(c)
 	defer c03EmptyNameAccepted(c)
 
